@@ -33,8 +33,31 @@ regex_coordinate = re.compile(r'\[([\w.+-:]*?)\s*[,]\s*([\w.+-:]*?)\]')
 # Single length format, e.g., helps extract the radius of a circle
 regex_length = re.compile(r'(?:\[[^=\]]*\])+[,]\s*([^\[]*)\]')
 
-# Extracts each 'parameter=value' pair
-regex_meta = re.compile(r'(?:(\w+)\s*=[\s\'\"]*([^,\[\]]+?)[\'\",]+)|(?:(\w+)\s*=\s*\[(.*?)\])')  # noqa: E501
+# Extracts each 'parameter=value' pair; a value enclosed in a pair of
+# quotes is taken verbatim (it may contain commas, brackets and the other
+# kind of quote)
+regex_meta = re.compile(r'(?:(\w+)\s*=\s*\'([^\']*)\'\s*,)'
+                        r'|(?:(\w+)\s*=\s*"([^"]*)"\s*,)'
+                        r'|(?:(\w+)\s*=[\s\'\"]*([^,\[\]]+?)[\'\",]+)'
+                        r'|(?:(\w+)\s*=\s*\[(.*?)\])')
+
+
+def _meta_pairs(meta_str):
+    """
+    Split a CRTF parameter string into (key, value) pairs.
+
+    A quoted ``label`` is returned verbatim; all other values are
+    stripped of surrounding whitespace.
+    """
+    pairs = []
+    for par in regex_meta.findall(meta_str + ','):
+        idx = next(i for i in range(0, len(par), 2) if par[i] != '')
+        key, val = par[idx].strip(), par[idx + 1]
+        if not (idx < 4 and key.lower() == 'label'):
+            val = val.strip()
+        pairs.append((key, val))
+    return pairs
+
 
 # Region format which segregates the include ('+'|'-') parameter, the
 # kind of definition ('ann' for annotations or '' for regions) and region
@@ -210,17 +233,8 @@ class _CRTFParser:
         meta key/value pair.
         """
         if global_meta_str:
-            global_meta_str = regex_meta.findall(global_meta_str + ',')
-        if global_meta_str:
-            for par in global_meta_str:
-                if par[0] != '':
-                    val1 = par[0].lower()
-                    val2 = par[1]
-                else:
-                    val1 = par[2].lower()
-                    val2 = par[3]
-                val1 = val1.strip()
-                val2 = val2.strip()
+            for val1, val2 in _meta_pairs(global_meta_str):
+                val1 = val1.lower()
                 if val1 in self.valid_global_keys:
                     if val1 in ('range', 'corr', 'labeloff'):
                         val2 = val2.split(',')
@@ -414,17 +428,9 @@ class _CRTFRegionParser:
         attribute.
         """
         if self.meta_str:
-            self.meta_str = regex_meta.findall(self.meta_str + ',')
+            self.meta_str = _meta_pairs(self.meta_str)
         if self.meta_str:
-            for par in self.meta_str:
-                if par[0] != '':
-                    val1 = par[0]
-                    val2 = par[1]
-                else:
-                    val1 = par[2]
-                    val2 = par[3]
-                val1 = val1.strip()
-                val2 = val2.strip()
+            for val1, val2 in self.meta_str:
                 if val1 in _CRTFParser.valid_global_keys or val1 == 'label':
                     if val1 in ('range', 'corr', 'labeloff'):
                         val2 = val2.split(',')
